@@ -90,7 +90,8 @@ SHADOW_WSDL = """<definitions xmlns:soap="http://schemas.xmlsoap.org/wsdl/soap/"
 """
 
 
-# a fixed document: a part rebinds the prefix `xs` where the XML Schema namespace is bound to no other prefix (C17-F12)
+# a fixed document: a part rebinds the prefix `xs` where the XML Schema namespace is bound to no other prefix
+# (regression case of C17-F12, repaired in /repo d49db31: must agree with `expected` like any other case)
 COMMON_PREFIX_WSDL = """<definitions xmlns:soap="http://schemas.xmlsoap.org/wsdl/soap/" xmlns:tns="urn:svc"
  xmlns:xs="http://www.w3.org/2001/XMLSchema" xmlns="http://schemas.xmlsoap.org/wsdl/" targetNamespace="urn:svc" name="S">
  <types><xs:schema targetNamespace="urn:svc" elementFormDefault="qualified">
@@ -236,21 +237,6 @@ def run(ck: Check):
                 same, a, b = G.same_defs(G.from_xsdata(o["definitions"]), D_doc)
             except ValueError as e:
                 same, a, b = False, repr(e), None
-            if not same:
-                # finding C17-F12, narrowly: the parser's object is exactly the document read with the modelled defect
-                # (G._scope: a common prefix rebound by the document is overwritten where its namespace is out of scope)
-                try:
-                    same_d = G.same_defs(G.from_xsdata(o["definitions"]), G.read_lxml_files(c["files"], "svc.wsdl", defect=True))[0]
-                except Exception:  # noqa
-                    same_d = False
-                if same_d:
-                    stats["features"]["F12-common-prefix-overwritten"] = stats["features"].get("F12-common-prefix-overwritten", 0) + 1
-                    ck.failure("common-prefix-rebound-overwritten",
-                               "the object DefinitionsParser built binds a common prefix (xs/xsi/xml/xlink) to its well-known "
-                               "namespace on an element where the document binds it to another namespace"
-                               + (f"; then generation failed at {o.get('stage')}: {(o.get('error') or {}).get('type')}"
-                                  if o.get("status") != "ok" else ""), replay_of(i, xsdata=a, document=b))
-                    continue        # everything downstream works on the misread document
         if o.get("status") != "ok":
             ck.failure("generation-fails", f"generation failed at {o.get('stage')}: {(o.get('error') or {}).get('type')}: "
                        f"{(o.get('error') or {}).get('message')}", replay_of(i, error=o.get("error")))
